@@ -251,6 +251,9 @@ def run(prop, tier="quick", seed=0):
     if vacuous:
         print("CHECKER ERROR: vacuous contract(s): " + ", ".join(o.name for o in vacuous))
         return 3
+    if bounded is not None and bounded.get("evaluations", 0) == 0 and not violations:
+        print("CHECKER ERROR: the bounded stand-in evaluated nothing (corpus not found?)")
+        return 3
     if violations:
         os.makedirs(replay_dir, exist_ok=True)
         for kind, item, wit in violations:
